@@ -148,7 +148,13 @@ def gen_log(rng, bits):
         k = rng.choice([0, 1, kmax, kmax - 1, rng.randrange(kmax + 1), rng.randrange(kmax + 1)])
         k = max(0, k)
         p = base ** k
-        for x in (p - 1, p, p + 1, p * base - 1):
+        top = min(p * base, m)
+        cand = [p - 1, p, p + 1, p * base - 1]
+        if top > p:
+            d = top - p
+            cand += [p + rng.randrange(d), p + rand_bits(rng, rng.randrange(d.bit_length() + 1)) % d,
+                     top - 1 - rand_bits(rng, rng.randrange(d.bit_length() + 1)) % d]
+        for x in cand:
             if 0 <= x < m:
                 out.append((x, base))
     elif r < 0.6 and base >= 2:
@@ -184,7 +190,11 @@ def gen_log1(rng, bits):
         kmax = ilog(base, m - 1)
         k = rng.choice([0, 1, kmax, rng.randrange(kmax + 1)])
         p = base ** k
-        out += [x for x in (p - 1, p, p + 1) if 0 <= x < m]
+        top = min(p * base, m)
+        cand = [p - 1, p, p + 1]
+        if top > p:
+            cand += [p + rng.randrange(top - p), top - 1 - rand_bits(rng, rng.randrange((top - p).bit_length() + 1)) % (top - p)]
+        out += [x for x in cand if 0 <= x < m]
     elif r < 0.6:
         kmax = ilog(10, m - 1)
         hval = isqrt(10 ** (2 * rng.randrange(kmax + 1) + 1))
@@ -212,7 +222,14 @@ def gen_root(rng, bits):
                          1 << rng.randrange(max(1, rmax.bit_length()))])
         rr = max(1, min(rr, rmax + 1))
         p = rr ** k
-        for x in (p - 1, p, p + 1):
+        top = min((rr + 1) ** k, m)
+        cand = [p - 1, p, p + 1]
+        if top > p:
+            # somewhere inside [r^k, (r+1)^k): uniform, and log-uniform distance from either end
+            d = top - p
+            cand += [p + rng.randrange(d), p + rand_bits(rng, rng.randrange(d.bit_length() + 1)) % d,
+                     top - 1 - rand_bits(rng, rng.randrange(d.bit_length() + 1)) % d]
+        for x in cand:
             if 0 <= x < m:
                 out.append((x, k))
     elif r < 0.65:
